@@ -1346,6 +1346,9 @@ def run(ctx: Ctx) -> None:
     from gv.props.c12 import _Prefixed
 
     c15.check_json(_Prefixed(ctx, "20.7-current-schema/"))
+    # ... and what the pickled schema leaves in the schema builder of the restored grammar (its `required` item) is
+    # emptied again, or the restored grammar keeps requiring what an edit made optional (rule group 15.8 of C15)
+    c15.check_builder_required(_Prefixed(ctx, "20.10-builder-required/"))
 
 
 _SOB = "problems/mdo/sobieski/disciplines.py"
